@@ -279,11 +279,11 @@ def gen(rng, tier):
     for a in _exhaustive(alpha, 2 if quick else 3):
         for b in _exhaustive(alpha, 2 if quick else 3):
             cases.append({"k": "join", "a": H(a), "b": H(b)})
-    for _ in range(150 if quick else 20000):
+    for _ in range(150 if quick else 3000):
         cases.append({"k": "norm", "s": H(_rand_path(rng, 9))})
         cases.append({"k": "abs", "s": H(_rand_path(rng, 6))})
         cases.append({"k": "join", "a": H(_rand_path(rng, 4)), "b": H(_rand_path(rng, 4))})
-    for _ in range(200 if quick else 20000):
+    for _ in range(200 if quick else 3000):
         n = rng.randrange(0, 8)
         s = b"".join(rng.choice([b"%", b"%2", b"%2e", b"%2F", b"%c3", b"%a9", b"%ff", b"%00", b"%ED%A0%80", b"%f4%90",
                                  b"%e2%82%ac", b"%f0%9f%98%80", b"%c0%af", b"a", b"/", b"%g1", b"%1g", b"%%",
@@ -292,25 +292,25 @@ def gen(rng, tier):
     # -- FilePath: bounded-exhaustive names over {'/', '.', 'a', NUL} for a few parents, both operations
     small_parents = [b"/", b"//", b"/a", b"/a/b", b"/aa"]
     for p in small_parents:
-        for s in _exhaustive(alpha, 3 if quick else 6):
+        for s in _exhaustive(alpha, 3 if quick else 5):
             cases.append({"k": "child", "parent": H(p), "name": H(s), "t": "bb"})
             cases.append({"k": "pre", "parent": H(p), "name": H(s), "t": "bb"})
     # -- FilePath: random hostile names, prefix-sharing siblings
-    for _ in range(500 if quick else 40000):
+    for _ in range(500 if quick else 8000):
         parent = rng.choice(PARENTS)
         r = rng.random()
         name = _sibling_attack(rng, parent) if r < 0.35 else _rand_path(rng)
         t = rng.choice(["bb", "bb", "ss", "sb", "bs"])
         op = rng.choice(["child", "pre", "pre"])
         cases.append({"k": op, "parent": H(parent), "name": H(name), "t": t})
-    for _ in range(200 if quick else 15000):
+    for _ in range(200 if quick else 3000):
         parent = rng.choice(PARENTS)
         segs = [rng.choice(PIECES + [b"", b"../foobar", b"a/b", b"/"]) for _ in range(rng.randrange(0, 5))]
         if rng.random() < 0.3:
             segs = [b"..", _segs(os.path.abspath(parent) + b"/q")[-2] + b"bar"] if _segs(os.path.abspath(parent)) else segs
         cases.append({"k": "desc", "parent": H(parent), "segs": [H(s) for s in segs], "t": rng.choice(["bb", "ss"])})
     # -- static.File through the real HTTP stack
-    for _ in range(400 if quick else 30000):
+    for _ in range(400 if quick else 6000):
         n = rng.randrange(1, 6)
         segs = [rng.choice(URLSEGS) for _ in range(n)]
         if rng.random() < 0.15:
@@ -457,7 +457,7 @@ SPEC = Spec(
     histogram=histogram,
     rule="os.path.normpath for every string over {'/','.','a'} up to length 5 (thorough 8), abspath/split up to 3 (5) "
          "with NUL, join for all pairs up to 2x2 (3x3), random hostile strings; unquote+UTF-8 validity on random "
-         "percent strings; FilePath.child and preauthChild for EVERY name over {'/','.','a'} up to length 3 (6) under "
+         "percent strings; FilePath.child and preauthChild for EVERY name over {'/','.','a'} up to length 3 (5) under "
          "parents /, //, /a, /a/b, /aa, plus random hostile names (NUL, non-UTF-8, backslash, %2e, '..' runs) with a "
          "sibling-name attack generator ('../'*k + parent's own name + suffix), bytes/str modes; descendant on random "
          "segment lists; static.File: random URL paths of 1-5 segments from a hostile segment list (thorough: all "
